@@ -47,6 +47,8 @@ func runC18(c *Ctx) {
 
 	r.Rule("C18.3", "written-json-is-json: what (*Spec).write puts into a .json file stays JSON (a schema-checking JSON reader accepts it)", 1)
 	c18WrittenJSON(c)
+	// the in-memory entry point (the installed Spec validator) validates the object itself
+	c17Loaders(c, "C18.2")
 
 	sf := loadSchemaFiles(c, "C18.1")
 	specT := c.U.NamedType("specs", "Spec")
